@@ -114,6 +114,11 @@ def instance_name_from_service_info(info: "ServiceInfo", strict: bool = True) ->
     return info.name[: -len(service_name) - 1]
 
 
+def _created_of(record: DNSRecord) -> float_:
+    """Return the time a cached record was last received."""
+    return record.created
+
+
 class ServiceInfo(RecordUpdateListener):
     """Service information.
 
@@ -737,10 +742,16 @@ class ServiceInfo(RecordUpdateListener):
         original_server_key = self.server_key
         # The most recently added record may have expired without being purged
         # yet, while an older one is still valid: expired records are skipped
-        # and the last valid one wins
-        for cached_srv_record in cache.get_all_by_details(self._name, _TYPE_SRV, _CLASS_IN):
+        # and the last valid one wins. Several generations can be valid at the
+        # same time (a record seen less than a second ago is not flushed), the
+        # one that was received last is what the service advertises now
+        for cached_srv_record in sorted(
+            cache.get_all_by_details(self._name, _TYPE_SRV, _CLASS_IN), key=_created_of
+        ):
             self._process_record_threadsafe(zc, cached_srv_record, now)
-        for cached_txt_record in cache.get_all_by_details(self._name, _TYPE_TXT, _CLASS_IN):
+        for cached_txt_record in sorted(
+            cache.get_all_by_details(self._name, _TYPE_TXT, _CLASS_IN), key=_created_of
+        ):
             self._process_record_threadsafe(zc, cached_txt_record, now)
         if original_server_key == self.server_key:
             # If there is a srv which changes the server_key,
